@@ -392,4 +392,12 @@ def layoutb (cfg : Cfg) : Bool :=
     decide (i ≠ j → cfg.file i = cfg.file j →
       cfg.off i + (cfg.data i).length ≤ cfg.off j ∨ cfg.off j + (cfg.data j).length ≤ cfg.off i)))
 
+/-- decidable form of `Prealloc` (Lemmas/Writer*Files.lean): the initial images are all zeros
+    and not longer than the largest end -/
+def preallocb (cfg : Cfg) : Bool :=
+  cfg.files.all (fun f => f.all (fun b => b == 0)) &&
+  (List.range cfg.files.length).all (fun φ => (cfg.files.getD φ []).isEmpty ||
+    (List.range cfg.n).any (fun i => decide (cfg.file i = φ) && !(cfg.data i).isEmpty &&
+      decide ((cfg.files.getD φ []).length = cfg.off i + (cfg.data i).length)))
+
 end IrVerif.WriterN
